@@ -419,6 +419,7 @@ func c14AfterCancel(ops string, bound int) *explore.Scenario {
 			if after != idle {
 				vsched.Fail(fam+"|not-idle:"+diffKey(idle, after)+"|after-cancel", "a handler performed %s on its stream after the caller had cancelled: the connection did not return to its idle state:\n%s", ops, diffStates(idle, after))
 			}
+			finishDirect(d, w, true) // what the handler still put on the wire conforms to the protocol (C06)
 			d.Pipe.A.Break()
 			d.Pipe.B.Break()
 			vsched.Quiesce()
